@@ -56,6 +56,10 @@ pub struct XargsScenario {
     /// PATH, so a command that cannot be found stays "not found"
     #[serde(default)]
     pub decoy_in_cwd: bool,
+    /// no command on the command line: xargs' built-in echo prints every batch on its own
+    /// standard output (`cmd` is then `["echo"]`, which is what the limits are charged with)
+    #[serde(default)]
+    pub echo_mode: bool,
 }
 
 /// What really runs in pass-through mode. `cmd[0]` of the scenario is then a
@@ -119,7 +123,9 @@ impl XargsScenario {
                 Opt::Raw(xs) => v.extend(xs.iter().cloned()),
             }
         }
-        v.extend(cmd.iter().cloned());
+        if !self.echo_mode {
+            v.extend(cmd.iter().cloned());
+        }
         v
     }
 }
@@ -134,6 +140,8 @@ pub struct XargsObs {
     pub child_log: Option<Vec<(Vec<Vec<u8>>, Vec<u8>)>>,
     /// pass-through mode: bytes each real child could read from its standard input
     pub child_stdin: Vec<usize>,
+    /// echo mode: what xargs wrote to its own standard output
+    pub stdout: Vec<u8>,
 }
 
 impl XargsObs {
@@ -244,10 +252,15 @@ pub fn run_xargs_with(sc: &XargsScenario, plan: &[ReadOp], ctx: &mut Ctx) -> Xar
         crate::sys::stdin_marker(b"these bytes stand for xargs' own standard input\n");
     }
     let argv = sc.argv_with(&cmd);
+    let capture = if sc.echo_mode { crate::sys::FdCapture::install(1) } else { None };
     let (status, stderr) = ctx.run_guarded(Box::new(world), move || {
         let refs: Vec<&str> = argv.iter().map(|s| s.as_str()).collect();
-        findutils::xargs::xargs_main(&refs)
+        let st = findutils::xargs::xargs_main(&refs);
+        use std::io::Write;
+        let _ = std::io::stdout().flush();
+        st
     });
+    let stdout = capture.map(|c| c.finish()).unwrap_or_default();
     let log = Rc::try_unwrap(log)
         .map(|c| c.into_inner())
         .unwrap_or_else(|rc| std::mem::take(&mut *rc.borrow_mut()));
@@ -264,6 +277,7 @@ pub fn run_xargs_with(sc: &XargsScenario, plan: &[ReadOp], ctx: &mut Ctx) -> Xar
         cmd,
         child_log,
         child_stdin,
+        stdout,
     }
 }
 
